@@ -16,8 +16,13 @@ class Elem:
     __hash__ = object.__hash__
 
 
-def install(run):
+def install(run, may_raise=False):
     def eq(run, self, other):
+        if may_raise and run.branch(run.fresh("elem_cmp_raises", z3.BoolSort())):
+            # differently typed elements: the comparison is a "no such overload" TypeError
+            run.ghost.setdefault("elem_raised", []).append(True)
+            from pyvc.values import VTuple
+            raise se.PyRaise(VObj(TypeError, {"args": VTuple([])}))
         b = run.fresh("elem_eq", z3.BoolSort())
         run.ghost.setdefault("elem_eqs", []).append(b)
         return se.mk_bool(run, b)
